@@ -28,6 +28,7 @@ import (
 	apierrors "k8s.io/apimachinery/pkg/api/errors"
 	"k8s.io/apimachinery/pkg/runtime"
 	clienttesting "k8s.io/client-go/testing"
+	"k8s.io/client-go/util/workqueue"
 
 	"github.com/pingcap/advanced-statefulset/client/apis/apps/v1/helper"
 )
@@ -36,6 +37,9 @@ type WorkerIn struct {
 	Outcomes  []bool `json:"outcomes"`
 	Success   string `json:"success"`
 	Bystander bool   `json:"bystander"`
+	// Fast: the controller's queue is replaced (VerifSetQueue) by one of the same type whose per-item backoff is
+	// 50us * 2^n capped at 2ms, so that long runs of failing reconciles take bounded time
+	Fast bool `json:"fast"`
 }
 
 type StepObs struct {
@@ -80,6 +84,10 @@ func init() {
 		paused := *plain
 		paused.Ann = map[string]string{helper.PausedReconcileAnn: "true"}
 		key := "ns1/web"
+		if in.Fast {
+			c.ctrl.VerifSetQueue(workqueue.NewNamedRateLimitingQueue(
+				workqueue.NewItemExponentialFailureRateLimiter(50*time.Microsecond, 2*time.Millisecond), "statefulset-fast"))
+		}
 		q := c.ctrl.VerifQueue()
 		out := map[string]interface{}{"key": key}
 
@@ -152,6 +160,9 @@ func init() {
 					n = 1
 				}
 				window = time.Duration(5<<uint(n-1))*time.Millisecond + 1500*time.Millisecond
+				if in.Fast {
+					window = 500 * time.Millisecond
+				}
 			}
 			t0 := time.Now()
 			for time.Since(t0) < window {
